@@ -860,7 +860,8 @@ func c04RunWire1(in *c04In) (Result, bool) {
 		sig = "wire:response:second-connection-line" // class of the repaired F-C04-3 (label only)
 	}
 	if len(in.RAnn) == 0 && len(in.RTrailers) > 0 && in.RBodyLen <= 2048 {
-		// the front response is not chunked yet when the proxy learns about the trailers
+		// the front response is not chunked yet when the proxy learns about the trailers: class of
+		// the repaired F-C04-6 (label only; the proxy now flushes before setting such trailers)
 		sig = "wire:response:unannounced-trailers-short-body"
 	}
 	looksFine := rerr == nil && len(got) == len(rb) && len(s.Body) == len(body) && resp.StatusCode == in.RStatus
